@@ -73,9 +73,8 @@ pub fn h_cmp() {
 
 /// Glue: Pattern(BASE op V).matches(BASE-W) equals the spec verdict on the spec tokenisation.
 pub fn h_glue() {
-    let n = sym::bound(2, 2);
-    let v = sym::any_str("v", "ascii", 0, n);
-    let w = sym::any_str("w", "ascii", 0, n);
+    let v = sym::any_str("v", "ascii", 0, 2);
+    let w = sym::any_str("w", "ascii", 0, sym::bound(1, 2));
     let op = sym::choose("op", 4);
     // '<' '>' '-' '{' '}' would change the pattern structure; they are C02/C04 territory
     let mut clean = true;
